@@ -41,8 +41,22 @@ func (o *Obligation) smtX(ground bool) string {
 		body.WriteByte(' ')
 	}
 	o.Goal.write(&body)
-	sb.WriteString(o.D.textFor(body.String()))
+	decls := o.D.textFor(body.String())
+	if ground {
+		var keep []string
+		for _, l := range strings.Split(decls, "\n") {
+			if strings.HasPrefix(l, "(assert") && strings.Contains(l, "forall") {
+				continue
+			}
+			keep = append(keep, l)
+		}
+		decls = strings.Join(keep, "\n")
+	}
+	sb.WriteString(decls)
 	for _, f := range o.D.facts {
+		if ground && strings.Contains(f.Op, "forall") {
+			continue
+		}
 		sb.WriteString("(assert ")
 		f.write(&sb)
 		sb.WriteString(")\n")
@@ -137,6 +151,21 @@ func solveAll(obls []*Obligation, dir string, jobs int, timeoutS int, thorough b
 			}
 			file := filepath.Join(dir, fmt.Sprintf("o%05d.smt2", i))
 			r.File = file
+			if o.Expect == "sat" {
+				// vacuity check: the ground part of the assumptions must be satisfiable (quantified facts dropped,
+				// otherwise no solver can answer sat); one back end, short timeout
+				os.WriteFile(file, []byte(o.smtGround()), 0o644)
+				st, out, el := runBackend(backends[0], file, 5, false)
+				r.TimeS, r.Status, r.Backend = el, st, backends[0].name
+				r.Tried = append(r.Tried, fmt.Sprintf("%s=%s(%.2fs)", backends[0].name, st, el))
+				if st == "error" {
+					r.Output = firstLines(out, 3)
+				}
+				if st == "sat" || st == "unknown" {
+					os.Remove(file)
+				}
+				return
+			}
 			if err := os.WriteFile(file, []byte(o.smt()), 0o644); err != nil {
 				r.Status = "error"
 				r.Output = err.Error()
